@@ -17,13 +17,43 @@ use crate::oracle::groups;
 
 pub const REL: f64 = 1e-9;
 
-fn area_signature(o: &OShape) -> String {
+/// area of the intersection of two discs
+fn lens_area(r1: f64, r2: f64, d: f64) -> f64 {
+    if d >= r1 + r2 {
+        0.
+    } else if d <= (r1 - r2).abs() {
+        PI * r1.min(r2).powi(2)
+    } else {
+        let a1 = ((d * d + r1 * r1 - r2 * r2) / (2. * d * r1)).max(-1.).min(1.).acos();
+        let a2 = ((d * d + r2 * r2 - r1 * r1) / (2. * d * r2)).max(-1.).min(1.).acos();
+        r1 * r1 * a1 + r2 * r2 * a2 - 0.5 * ((-d + r1 + r2) * (d + r1 - r2) * (d - r1 + r2) * (d + r1 + r2)).max(0.).sqrt()
+    }
+}
+
+/// what the known defect computes: inclusion-exclusion over pairs, without the triple term
+fn pairwise_area(d: &[([f64; 2], f64)]) -> f64 {
+    let mut a: f64 = d.iter().map(|(_, r)| PI * r * r).sum();
+    for i in 0..d.len() {
+        for j in i + 1..d.len() {
+            a -= lens_area(d[i].1, d[j].1, geom::dist(d[i].0, d[j].0));
+        }
+    }
+    a
+}
+
+/// `got`: the area the library reports.  The open finding is one specific wrong value - the
+/// pairwise sum where three discs share a point; any other value there is a different defect.
+fn area_signature(o: &OShape, got: f64) -> String {
     match o {
         OShape::Poly(_) => "LineShape::area:wrong".into(),
         OShape::Discs(d) => {
             // a common point of three discs also covers "two contained discs that overlap"
             if geom::triple_common_point(d) {
-                "MolecularShape2::area:three-discs-share-a-point".into()
+                if rel_diff(got, pairwise_area(d)) <= 1e-9 {
+                    "MolecularShape2::area:three-discs-share-a-point".into()
+                } else {
+                    "MolecularShape2::area:three-discs-share-a-point:and-not-the-pairwise-sum-either".into()
+                }
             } else if geom::any_containment(d) {
                 "MolecularShape2::area:disc-contained-in-another".into()
             } else {
@@ -62,7 +92,7 @@ fn check_area_generic<S: HardGeom>(s: &S, c: &AreaCase, st: &mut Stats) {
     if !(rel_diff(got, want) <= REL) {
         st.violation(Violation {
             kind: "c02.area".into(),
-            signature: area_signature(&o),
+            signature: area_signature(&o, got),
             case: serde_json::to_value(c).unwrap(),
             detail: json!({"library_area": got, "oracle_area": want, "geometry": format!("{:?}", o)}),
         });
@@ -197,7 +227,7 @@ pub fn judge_score<S: HardGeom>(state: &PackedState<S>, c: &StateCase, st: &mut 
         // attribute: shape area, cell area, copy count?
         let lib_area = state.shape.area();
         let sig = if !(rel_diff(lib_area, view.shape.area()) <= REL) {
-            area_signature(&view.shape)
+            area_signature(&view.shape, lib_area)
         } else if !(rel_diff(state.cell.area(), view.lattice.area()) <= REL) {
             "Cell2::area:wrong".to_string()
         } else if state.total_shapes() != view.copies {
